@@ -480,4 +480,118 @@ theorem cumsum_emits_prefix_sum' (cfg : Cfg) (hf : cfg.fn = .cumulativeSum) (k :
   simp only [tEmit, hf, h, sumVals, List.foldl_append, List.foldl]
 
 
+/-! ### what min / max select -/
+
+theorem better_min_int (c b : QP) (i j : Int) (hc : c.val = .int i) (hb : b.val = .int j) :
+    better .min c b = true ↔ (i < j ∨ (i = j ∧ c.time < b.time)) := by
+  simp only [better, hc, hb, Val.lt, Val.eqv, Bool.or_eq_true, Bool.and_eq_true, decide_eq_true_eq,
+    Bool.not_eq_true', decide_eq_false_iff_not]
+  omega
+
+theorem better_max_int (c b : QP) (i j : Int) (hc : c.val = .int i) (hb : b.val = .int j) :
+    better .max c b = true ↔ (j < i ∨ (i = j ∧ c.time < b.time)) := by
+  simp only [better, hc, hb, Val.lt, Val.eqv, Bool.or_eq_true, Bool.and_eq_true, decide_eq_true_eq,
+    Bool.not_eq_true', decide_eq_false_iff_not]
+  omega
+
+/-- `b` is at least as good a minimum as `x`: smaller value, or equal value and not later -/
+def MinLe (b x : QP) : Prop := intVal b < intVal x ∨ (intVal b = intVal x ∧ b.time ≤ x.time)
+def MaxLe (b x : QP) : Prop := intVal b > intVal x ∨ (intVal b = intVal x ∧ b.time ≤ x.time)
+
+theorem selectFold_min (r : List QP) (h : AllInt r) : ∀ (best : QP), (∃ j, best.val = .int j) →
+    (∀ x ∈ r, MinLe (r.foldl (fun best c => if better .min c best then c else best) best) x) ∧
+    MinLe (r.foldl (fun best c => if better .min c best then c else best) best) best := by
+  induction r with
+  | nil => intro best _; exact ⟨by simp, Or.inr ⟨rfl, Int.le_refl _⟩⟩
+  | cons c r ih =>
+    intro best ⟨j, hj⟩
+    obtain ⟨i, hi⟩ := h c (by simp)
+    have hr : AllInt r := fun z hz => h z (by simp [hz])
+    simp only [List.foldl]
+    have hbi := better_min_int c best i j hi hj
+    have vi : intVal c = i := by simp [intVal, hi]
+    have vj : intVal best = j := by simp [intVal, hj]
+    by_cases hb : better .min c best = true
+    · simp only [hb, if_true]
+      obtain ⟨a1, a2⟩ := ih hr c ⟨i, hi⟩
+      have hlt := hbi.mp hb
+      refine ⟨?_, ?_⟩
+      · intro x hx; simp only [List.mem_cons] at hx
+        rcases hx with rfl | hx
+        · exact a2
+        · exact a1 x hx
+      · unfold MinLe at a2 ⊢; omega
+    · have hb' : better .min c best = false := by simpa using hb
+      simp only [hb', Bool.false_eq_true, if_false]
+      obtain ⟨a1, a2⟩ := ih hr best ⟨j, hj⟩
+      have hnlt : ¬ (i < j ∨ (i = j ∧ c.time < best.time)) := fun e => hb (hbi.mpr e)
+      refine ⟨?_, a2⟩
+      intro x hx; simp only [List.mem_cons] at hx
+      rcases hx with rfl | hx
+      · unfold MinLe at a2 ⊢; omega
+      · exact a1 x hx
+
+theorem selectFold_max (r : List QP) (h : AllInt r) : ∀ (best : QP), (∃ j, best.val = .int j) →
+    (∀ x ∈ r, MaxLe (r.foldl (fun best c => if better .max c best then c else best) best) x) ∧
+    MaxLe (r.foldl (fun best c => if better .max c best then c else best) best) best := by
+  induction r with
+  | nil => intro best _; exact ⟨by simp, Or.inr ⟨rfl, Int.le_refl _⟩⟩
+  | cons c r ih =>
+    intro best ⟨j, hj⟩
+    obtain ⟨i, hi⟩ := h c (by simp)
+    have hr : AllInt r := fun z hz => h z (by simp [hz])
+    simp only [List.foldl]
+    have hbi := better_max_int c best i j hi hj
+    have vi : intVal c = i := by simp [intVal, hi]
+    have vj : intVal best = j := by simp [intVal, hj]
+    by_cases hb : better .max c best = true
+    · simp only [hb, if_true]
+      obtain ⟨a1, a2⟩ := ih hr c ⟨i, hi⟩
+      have hlt := hbi.mp hb
+      refine ⟨?_, ?_⟩
+      · intro x hx; simp only [List.mem_cons] at hx
+        rcases hx with rfl | hx
+        · exact a2
+        · exact a1 x hx
+      · unfold MaxLe at a2 ⊢; omega
+    · have hb' : better .max c best = false := by simpa using hb
+      simp only [hb', Bool.false_eq_true, if_false]
+      obtain ⟨a1, a2⟩ := ih hr best ⟨j, hj⟩
+      have hnlt : ¬ (j < i ∨ (i = j ∧ c.time < best.time)) := fun e => hb (hbi.mpr e)
+      refine ⟨?_, a2⟩
+      intro x hx; simp only [List.mem_cons] at hx
+      rcases hx with rfl | hx
+      · unfold MaxLe at a2 ⊢; omega
+      · exact a1 x hx
+
+/-- min selects a point with THE least value and, among those, the earliest time -/
+theorem select_min_int (xs : List QP) (h : AllInt xs) (p : QP) (hs : select .min xs = some p) :
+    p ∈ xs ∧ ∀ x ∈ xs, MinLe p x := by
+  refine ⟨select_mem _ _ _ hs, ?_⟩
+  cases xs with
+  | nil => simp [select] at hs
+  | cons a r =>
+    simp only [select, Option.some.injEq] at hs
+    obtain ⟨a1, a2⟩ := selectFold_min r (fun z hz => h z (by simp [hz])) a (h a (by simp))
+    rw [hs] at a1 a2
+    intro x hx; simp only [List.mem_cons] at hx
+    rcases hx with rfl | hx
+    · exact a2
+    · exact a1 x hx
+
+theorem select_max_int (xs : List QP) (h : AllInt xs) (p : QP) (hs : select .max xs = some p) :
+    p ∈ xs ∧ ∀ x ∈ xs, MaxLe p x := by
+  refine ⟨select_mem _ _ _ hs, ?_⟩
+  cases xs with
+  | nil => simp [select] at hs
+  | cons a r =>
+    simp only [select, Option.some.injEq] at hs
+    obtain ⟨a1, a2⟩ := selectFold_max r (fun z hz => h z (by simp [hz])) a (h a (by simp))
+    rw [hs] at a1 a2
+    intro x hx; simp only [List.mem_cons] at hx
+    rcases hx with rfl | hx
+    · exact a2
+    · exact a1 x hx
+
+
 end Kap.C11
